@@ -603,6 +603,11 @@ def run(cfg):
 
 
 SELFTEST = [
+    dict(id='basic-standard-time-suffix-read-as-wall-clock', file='src/ace_time/BasicZoneProcessor.h',
+         find='      } else if (atSuffix == basic::ZoneContext::kSuffixS) {\n        return currentBaseOffsetMinutes;',
+         replace='      } else if (atSuffix == basic::ZoneContext::kSuffixS) {\n        return prevEffectiveOffsetMinutes;', rule='F'),
+    dict(id='basic-era-of-the-until-year', file='src/ace_time/BasicZoneProcessor.h',
+         find='        if (yearTiny < era.untilYearTiny()) return era;', replace='        if (yearTiny <= era.untilYearTiny()) return era;', rule='G'),
     dict(id='era-until-month', file='src/ace_time/zonedb/zone_infos.cpp', regex=True, unique=False, nth=3,
          find=r'1 /\*untilMonth\*/', replace='3 /*untilMonth*/', rule='A1'),
     dict(id='two-rules-one-month', file='src/ace_time/zonedb/zone_policies.cpp', regex=True, unique=False, nth=0,
